@@ -97,7 +97,9 @@ fn check_light(ctx: &mut Ctx, b: &[u8], what: &str) {
 
 pub fn samples(rng: &mut Rng, n: u16, kind: u64) -> Vec<i16> {
     (0..n)
-        .map(|i| match kind % 4 {
+        .map(|i| match kind % 5 {
+            // sample values that look like structure: the end marker 0xCCCC, runs of it, small "header-like" words
+            4 => *rng.pick(&[-13108i16, -13108, -13108, 2, 3, 0, i as i16 + 1, n as i16, 0x4142, -13107, -13109]),
             0 => rng.next() as i16,
             1 => [i16::MIN, i16::MAX, 0, -1][i as usize % 4],
             2 => 1725 + (rng.gauss() * 4.0) as i16,
@@ -269,6 +271,33 @@ fn run(ctx: &mut Ctx) {
         let mut p = seed.clone();
         p.sent_mask &= !(1 << 4);
         check(ctx, &p.encode(), "mask misses a bit");
+    });
+    // ---- masks of every population count 0..=79 (reset / FPN / pad channels in and out at random), sample values that
+    // look like structure: what is decided from the *number* of channels or from sample content must not differ
+    ctx.cases("popcounts", 80, |ctx, count, rng| {
+        for rep in 0..6u64 {
+            let rs = [1u16, 2, 3, 4, 8, 511][(rep % 6) as usize];
+            if rs == 511 && ctx.quick() && count % 8 != 4 {
+                continue;
+            }
+            let mut ids: Vec<u16> = (1..=79).collect();
+            rng.shuffle(&mut ids);
+            let mut ids = ids[..count as usize].to_vec();
+            // now and then make sure the reset channels (readout 1..=3) are in / out together
+            if rep % 3 == 1 {
+                ids.retain(|c| *c > 3);
+                for c in 1..=3u16 {
+                    if ids.len() < count as usize {
+                        ids.push(c);
+                    }
+                }
+            }
+            ids.sort();
+            ids.dedup();
+            let p = Pwb::new(['A', 'B', 'C', 'D'][(rep % 4) as usize], *rng.pick(&macs), rs, ids.iter().map(|c| (*c, samples(rng, rs, 4 * (rep % 2) + rep))).collect());
+            check(ctx, &p.encode(), "mask of a given population count");
+            ctx.count("masks of every population count");
+        }
     });
     // ---- whole blocks too many / too few, at every place: the body length is then still "a multiple of the block size
     // plus the marker", so only the exact length equation catches it
